@@ -10,6 +10,7 @@ quarter turns, and the refusals.
 """
 import itertools
 import math
+import random
 from fractions import Fraction as F
 
 import numpy as np
@@ -508,18 +509,181 @@ def gen_case(rng, tier, regime=None, force_op=None, poly=None, allvalid=None, nm
     return c
 
 
+def mk(rng, op, sh, nv, dims=None, vdims=None, vmap=None, per=(), masked=False, poly=None, cell=None,
+       p1=None, mapclass="directed", offset=None, amp=1, stream="core", group="", **extra):
+    """a hand-specified exact-regime case (only the data are drawn from rng)"""
+    nd = len(sh)
+    cell = cell or [F(rng.choice([1, 2, 4, 1]), rng.choice([1, 2, 4, 8])) for _ in range(nd)]
+    p1 = p1 or [F(rng.randint(-16, 16), 2) for _ in range(nd)]
+    ncell = math.prod(sh)
+    valid = [rng.random() >= 0.25 for _ in range(ncell)] if masked else [True] * ncell
+    c = dict(op=op, regime="exact", sh=list(sh), cell=[g.qs(F(x)) for x in cell], p1=[g.qs(F(x)) for x in p1],
+             periodic_axes=list(per), dims=dims, nvdim=nv, vdims=vdims, vmap=vmap, mapclass=mapclass,
+             valid=valid, stream=stream, group=group)
+    if poly is not None:
+        c["poly"] = [rand_poly(rng, nd, poly) for _ in range(nv)]
+        for P in c["poly"]:
+            if offset is not None:
+                P["c"] = offset
+            if amp != 1:
+                P["b"] = [g.qs(F(x) * amp) for x in P["b"]]
+                P["q"] = {k_: g.qs(F(x) * amp) for k_, x in P["q"].items()}
+        c["polydeg"] = poly
+        ctr = centres(c)
+        vals = []
+        for idx in itertools.product(*[range(k) for k in sh]):
+            x = [ctr[a][j] for a, j in enumerate(idx)]
+            vals += [poly_eval(P, x) for P in c["poly"]]
+    else:
+        vals = [F(rng.randint(-24, 24), rng.choice([1, 1, 2])) for _ in range(ncell * nv)]
+    c["vals"] = [g.qs(v) for v in vals]
+    c.update(extra)
+    return c
+
+
+def directed_core():
+    """seed-, tier- and run-independent cases: one small group per mechanism that a change of the code
+    has been seen to break (rounds a-e of the seeded changes) and per hardening blind spot"""
+    rng = random.Random(424242)
+    out = []
+    # a1: mapping dictionaries whose insertion order differs from vdims, non-identity permutations
+    for sh, lbl, pairs in [((4, 3, 3), ["p", "q", "r"], [["r", "x"], ["p", "z"], ["q", "y"]]),
+                           ((3, 4, 3), ["p", "q", "r"], [["q", "x"], ["r", "y"], ["p", "z"]]),
+                           ((3, 4), ["u", "w"], [["w", "x"], ["u", "y"]]),
+                           ((3, 3, 4), ["mx", "my", "mz"], [["mz", "y"], ["mx", "z"], ["my", "x"]])]:
+        for op in ("div", "curl", "laplace"):
+            if op == "curl" and len(sh) != 3:
+                continue
+            out.append(mk(rng, op, sh, len(sh), vdims=lbl, vmap=pairs, mapclass="permutation", group="a1"))
+            out.append(mk(rng, op, sh, len(sh), vdims=lbl, vmap=pairs, mapclass="permutation", poly=2, group="a1"))
+    # a2 / d1: dimension names not in alphabetical / default order; default and explicit mappings
+    for dn in (["r", "phi", "h"], ["z", "y", "x"], ["z", "x", "y"], ["t", "a", "q"], ["y", "z", "x"]):
+        for op in ("curl", "grad", "div"):
+            nv = 1 if op == "grad" else 3
+            out.append(mk(rng, op, (3, 4, 3), nv, dims=dn, mapclass="default", group="a2d1"))
+            out.append(mk(rng, op, (4, 3, 3), nv, dims=dn, mapclass="default", poly=2, group="a2d1"))
+        out.append(mk(rng, "curl", (3, 3, 4), 3, dims=dn, vdims=["p", "q", "s"],
+                      vmap=[["s", dn[0]], ["p", dn[1]], ["q", dn[2]]], mapclass="permutation", group="a2d1"))
+    for dn in (["y", "x"], ["z", "x"]):
+        out.append(mk(rng, "grad", (4, 3), 1, dims=dn, mapclass="scalar", poly=2, group="a2d1"))
+        out.append(mk(rng, "div", (3, 4), 2, dims=dn, mapclass="default", group="a2d1"))
+    # a3 / c2: periodic directions with 1, 2, 3 cells next to longer ones; fully valid and masked
+    for sh, per in [((2, 4), [0]), ((4, 2), [1]), ((2, 3, 4), [0]), ((3, 2, 2), [1, 2]), ((1, 4), [0]),
+                    ((3, 3), [0]), ((3, 4, 3), [1]), ((4, 3), [0, 1]), ((5,), [0]), ((2,), [0])]:
+        nd = len(sh)
+        for op in OPS:
+            nv = dict(grad=1, div=nd, curl=3, laplace=1)[op]
+            if op == "curl" and nd != 3:
+                continue
+            out.append(mk(rng, op, sh, nv, per=per, mapclass="default" if nv > 1 else "scalar", group="a3c2"))
+        out.append(mk(rng, "laplace", sh, 2, per=per, masked=True, mapclass="default-empty" if nd != 2 else "default",
+                      group="a3c2"))
+    # b1: component count that does not fit, with a complete mapping onto mesh axes -> div / curl refuse
+    out.append(mk(rng, "div", (3, 3, 3), 2, vmap=[["x", "x"], ["y", "y"]], mapclass="partial", group="b1"))
+    out.append(mk(rng, "div", (3, 4), 3, vmap=[["x", "x"], ["y", "y"], ["z", "x"]], mapclass="partial", group="b1"))
+    out.append(mk(rng, "div", (3, 3, 3), 4, vdims=["a", "b", "c", "d"],
+                  vmap=[["a", "x"], ["b", "y"], ["c", "z"], ["d", "x"]], mapclass="partial", group="b1"))
+    out.append(mk(rng, "curl", (3, 4), 3, vmap=[["x", "x"], ["y", "y"], ["z", "x"]], mapclass="partial", group="b1"))
+    out.append(mk(rng, "div", (4,), 2, vmap=[["x", "x"], ["y", "x"]], mapclass="partial", group="b1"))
+    out.append(mk(rng, "grad", (3, 3), 2, mapclass="default", group="b1"))
+    # b2 / b3: results whose labels are used afterwards (div curl, rotate90 of the result), permuted and
+    # non-positional mappings, nvdim != ndim with an explicit mapping
+    for pairs in ([["x", "z"], ["y", "x"], ["z", "y"]], [["x", "y"], ["y", "z"], ["z", "x"]],
+                  [["x", "y"], ["y", "x"], ["z", "z"]]):
+        out.append(mk(rng, "curl", (3, 4, 3), 3, vmap=pairs, mapclass="permutation", group="b2b3"))
+        out.append(mk(rng, "laplace", (3, 3, 4), 3, vmap=pairs, mapclass="permutation", group="b2b3"))
+        out.append(mk(rng, "laplace", (4, 3, 3), 3, vdims=["u", "v2", "w"],
+                      vmap=[[l, d] for l, (_, d) in zip(["u", "v2", "w"], pairs)], mapclass="permutation",
+                      masked=True, group="b2b3"))
+    out.append(mk(rng, "laplace", (4, 3), 3, vmap=[["x", "x"], ["y", "y"], ["z", "z"]], mapclass="partial", group="b2b3"))
+    out.append(mk(rng, "laplace", (4, 3), 3, vdims=["a", "b", "c"], vmap=[["c", "y"], ["a", "x"], ["b", "nope"]],
+                  mapclass="partial", group="b2b3"))
+    # c1: exactly three cells in a direction, quadratic data (smallest size with exactness)
+    for sh in ((3,), (3, 3), (3, 4), (3, 3, 3), (4, 3, 5), (3, 5, 3)):
+        nd = len(sh)
+        for op in OPS:
+            nv = dict(grad=1, div=nd, curl=3, laplace=1)[op]
+            if op == "curl" and nd != 3:
+                continue
+            if op == "div" and nd == 1:
+                out.append(mk(rng, op, sh, 1, vdims=["u"], vmap=[["u", "x"]], mapclass="scalar-mapped", poly=2, group="c1"))
+                continue
+            out.append(mk(rng, op, sh, nv, mapclass="default" if nv > 1 else "scalar", poly=2, group="c1"))
+    # c3 / d2: storage types (explicit dtype): integer, float32, complex
+    for dtname in ("int64", "int32", "uint8", "float32", "complex128", "complex64"):
+        for op in OPS:
+            nv = dict(grad=1, div=3, curl=3, laplace=2)[op]
+            base = mk(rng, op, (3, 4, 3), nv, mapclass="default" if nv == 3 else ("scalar" if nv == 1 else "default-empty"),
+                      cell=[2, 2, 4], group="c3d2")
+            c = with_dtype(base, rng, dtname, slope=True)
+            c["stream"] = "core"
+            out.append(c)
+    # e2: low-amplitude polynomials on a large constant background (exact in binary)
+    for off, amp, cell in ((2 ** 40, 1, [1, 2, 1]), (10 ** 7, F(1, 16), [1, F(1, 2), 2]), (-(2 ** 30), F(1, 4), [2, 1, 1])):
+        for op in OPS:
+            nv = dict(grad=1, div=3, curl=3, laplace=1)[op]
+            out.append(mk(rng, op, (4, 3, 4), nv, mapclass="default" if nv > 1 else "scalar", poly=2, offset=off,
+                          amp=amp, cell=cell, p1=[0, -2, 3], group="e2"))
+        out.append(mk(rng, "grad", (5, 4), 1, mapclass="scalar", poly=2, offset=off, amp=amp, cell=cell[:2], p1=[1, 0],
+                      group="e2"))
+    # e3 / rotper: odd and even turns in planes with exactly one periodic axis (first or second)
+    for sh, per, rots in [((3, 4), [1], [[0, 1, 1], [1, 0, 1], [0, 1, 3], [0, 1, 2]]),
+                          ((4, 3), [0], [[0, 1, 1], [1, 0, -1]]),
+                          ((3, 4, 2), [1], [[0, 1, 1], [2, 1, 1], [1, 2, 3], [0, 2, 1]]),
+                          ((2, 3, 3), [2, 0], [[1, 2, 1], [0, 1, 5], [1, 0, 1]])]:
+        nd = len(sh)
+        for rot in rots:
+            for op in OPS:
+                nv = dict(grad=1, div=nd, curl=3, laplace=nd)[op]
+                if op == "curl" and nd != 3:
+                    continue
+                out.append(mk(rng, op, sh, nv, per=per, mapclass="default" if nv > 1 else "scalar", rot=rot, group="e3"))
+    # e1 / state: use, change in place (mesh, data, validity, mapping items, labels), then the operator
+    hist = [[["map_item", "swap", 0, 1]], [["map_item", "update", 1, 2]], [["map_item", "delins", 0, 2]],
+            [["map_item", "foreign", 1, 1]], [["vdims_set", "perm"]], [["vdims_set", "new"]], [["map_set"]],
+            [["map_item", "swap", 0, 2], ["vdims_set", "perm"]],
+            [["mesh_scale", ["-2/1"]]], [["region_scale", ["1/2", "2/1", "4/1"]]], [["mesh_translate", ["1/4", "-3/1", "2/1"]]],
+            [["array_write", "add_comp0", 3]], [["field_rot", 0, 1, 1], ["map_item", "swap", 0, 1]],
+            [["mesh_rot", 0, 2, 2]], [["mesh_scale", ["2/1", "-1/2", "4/1"]], ["array_write", "times", 2]]]
+    for steps in hist:
+        for op in ("curl", "div", "laplace"):
+            out.append(mk(rng, op, (3, 3, 3), 3, vdims=["a", "b", "c"], vmap=[["b", "z"], ["c", "x"], ["a", "y"]],
+                          mapclass="permutation", pre=steps, stream="core", group="e1state"))
+    out.append(mk(rng, "grad", (3, 4, 2), 1, mapclass="scalar", pre=[["mesh_scale", ["-2/1"]], ["field_rot", 0, 2, 1]],
+                  group="e1state"))
+    # d3: derived fields (stream 'derived' runs every derivation)
+    for op in ("div", "curl", "laplace"):
+        out.append(mk(rng, op, (3, 3, 3), 3, vdims=["a", "b", "c"], vmap=[["b", "z"], ["c", "x"], ["a", "y"]],
+                      mapclass="permutation", stream="derived", group="d3"))
+    out.append(mk(rng, "grad", (3, 4), 1, vdims=["s"], vmap=[["s", "y"]], mapclass="scalar-mapped", stream="derived",
+                  group="d3"))
+    # hardening blind spots: magnitudes, representations, bc keywords and names
+    for op in OPS:
+        nv = dict(grad=1, div=3, curl=3, laplace=3)[op]
+        base = mk(rng, op, (3, 4, 3), nv, mapclass="default" if nv > 1 else "scalar", group="hard")
+        for fn in (with_magnitude, with_representation):
+            c = fn(dict(base), rng)
+            c["group"] = "hard"
+            out.append(c)
+        out.append(mk(rng, op, (3, 3, 3), nv, dims=["n", "e", "u"], bc="neumann", mapclass="default" if nv > 1 else "scalar",
+                      group="hard"))
+        out.append(mk(rng, op, (3, 3, 3), nv, dims=["x", "y", "xy"], bc="xy", per=[0, 1],
+                      mapclass="default" if nv > 1 else "scalar", group="hard"))
+    return out
+
+
 def generate(rng, tier):
-    cases = []
-    n_rand = 420 if tier == "quick" else 5000
+    cases = directed_core()
+    n_rand = 300 if tier == "quick" else 4000
     for _ in range(n_rand):
         cases.append(gen_case(rng, tier))
     # polynomial exactness: >= 3 cells per direction, fully valid, open boundaries
-    for _ in range(120 if tier == "quick" else 1200):
+    for _ in range(90 if tier == "quick" else 900):
         deg = rng.choice([0, 1, 2, 2, 2, 3])
         cases.append(gen_case(rng, tier, poly=deg, allvalid=True, nmin=3,
                               regime="exact" if rng.random() < 0.75 else "scale"))
     # short axes (1 and 2 cells: zero derivative / two-point stencil), every operator
-    for _ in range(80 if tier == "quick" else 600):
+    for _ in range(60 if tier == "quick" else 500):
         cases.append(gen_case(rng, tier, regime="exact", short=True))
     # every permutation of the mapping in 3-d for div / curl / laplace, same data
     base = gen_case(rng, tier, regime="exact", force_op="curl", allvalid=True)
@@ -789,14 +953,14 @@ def hardening_cases(rng, tier):
         out.append(dict(op="laplace", regime="exact", sh=[4], cell=["2/1"], p1=["0/1"], periodic_axes=[], dims=None,
                         nvdim=1, vdims=None, vmap=None, mapclass="scalar", valid=[True] * 4,
                         vals=[g.qs(F(j)) for j in (3, 1, 0, 4)], dtype=dtname, stream="dtype"))
-    for _ in range(40 if q else 400):
+    for _ in range(30 if q else 300):
         out.append(with_magnitude(fitting_case(rng, tier), rng))
-    for _ in range(50 if q else 500):
+    for _ in range(40 if q else 300):
         out.append(with_representation(fitting_case(rng, tier), rng))
     # quarter turns with one periodic in-plane axis: all four operators, odd and even k
     for op in OPS:
         for k in (1, 2, 3, -1, 5, 4):
-            for _ in range(3 if q else 25):
+            for _ in range(2 if q else 16):
                 out.append(rotper_case(rng, tier, op, k))
     out += bcname_cases(rng, tier)
     # derive, relabel the derived field through the setters, then the operator on the original:
@@ -814,7 +978,7 @@ def hardening_cases(rng, tier):
             base.pop("poly", None)
             base.pop("polydeg", None)
             out.append(base)
-    for _ in range(110 if q else 1100):
+    for _ in range(80 if q else 700):
         base = fitting_case(rng, tier)
         if rng.random() < 0.2:
             base = with_dtype(base, rng, rng.choice(["int64", "int32", "complex128", "float32"]))
@@ -1100,7 +1264,9 @@ def oracle_ok(rec, c, f, dims, res, op, tol, exact, fully_valid, scale):
                 if not ok:
                     flag("polynomial-not-exact-" + op)
     # --- a constant background does not change any of the four operators
-    if exact and f.array.dtype == np.float64 and maxabs(f.array) <= 2.0 ** 12 and not c.get("pre"):
+    # (only where value + constant is exact: values that are multiples of 2^-10 below 2^12)
+    if exact and f.array.dtype == np.float64 and maxabs(f.array) <= 2.0 ** 12 and not c.get("pre") \
+            and bool(np.all(np.mod(f.array * 1024.0, 1.0) == 0.0)):
         for cst in (2.0 ** 30, -1.0e7):
             stc, fc = attempt(lambda: df.Field(f.mesh, nvdim=nv, value=f.array + cst, valid=f.valid.copy(),
                                                vdims=f.vdims, vdim_mapping=dict(f.vdim_mapping)))
